@@ -20,7 +20,7 @@ RULE = ("Hypothesis draws a model basis set (1-4 elements with one- and two-lett
         "Gaussian94 must merge into a generalized shell) and a layout (number style E / D / 0.xD+yy / plain / no leading zero, "
         "signs, column widths, comment and blank lines, 0 / 1 / 2+ lines before the first element incl. the single line "
         "BASIS \"ao basis\" PRINT, with or without trailing END / ****); the file is written and parsed.  Oracle: the model, "
-        "with every number equal to float() of the emitted token (exact).  make_contractions / from_pyscf: molecules of 1-5 "
+        "with every number equal to float() of the emitted token (exact).  make_contractions / from_pyscf: molecules of 1-11 "
         "atoms with repeated elements, float or int coordinates, coord_types as one string (4 spellings), list or tuple, "
         "each call repeated with the SAME argument objects and deep snapshots compared.  Non-trivial: a file with an SP "
         "shell, >= 3 columns, l >= g, D-style numbers or < 2 header lines; a builder case with a list/tuple coord_types.")
@@ -69,7 +69,7 @@ def shell_st(draw, fmt, style, avoid):
         letters, m = "SP", 2
     else:
         letters = draw(st.sampled_from(LETTERS)) if kind < 4 else draw(st.sampled_from("SPDF"))
-        m = 1 if fmt == "gbs" else draw(st.sampled_from([1, 1, 2, 3, 4, 6]))
+        m = 1 if fmt == "gbs" else draw(st.sampled_from([1, 1, 2, 3, 4, 6, 8, 10]))
     cols = [[draw(token(style, True, 1e-4, 10.0)) for _ in range(m)] for _ in range(k)]
     return {"letters": letters, "exps": exps, "cols": cols}
 
@@ -81,7 +81,7 @@ def model_st(draw, fmt):
     model = []
     for el in els:
         shells = []
-        for _ in range(draw(st.integers(1, 6))):
+        for _ in range(draw(st.sampled_from([1, 2, 3, 4, 5, 6, 10, 12]))):
             prev = shells[-1] if shells else None
             if fmt == "gbs" and prev is not None and len(prev["letters"]) == 1 and draw(st.integers(0, 3)) == 0:
                 # same exponents and l as the previous shell: Gaussian94 readers merge these into a generalized shell
@@ -175,7 +175,7 @@ def builder_st(draw):
             co, _ = gen.repair_cancellation(l, exps, co)
             shells.append([l, exps, co])
         bd[el] = shells
-    atoms = [draw(st.sampled_from(els)) for _ in range(draw(st.integers(1, 5)))]
+    atoms = [draw(st.sampled_from(els)) for _ in range(draw(st.sampled_from([1, 2, 3, 4, 5, 11])))]
     integer = draw(st.booleans())
     coords = [[draw(st.integers(-5, 5)) if integer else draw(st.floats(-5, 5, allow_nan=False)) for _ in range(3)]
               for _ in atoms]
